@@ -27,6 +27,8 @@ namespace vh {
     std::vector<Ev> evs;
     std::vector<std::string> stack;
     size_t * draws_ptr = nullptr;
+    int * scheme_counter = nullptr; // incremented at every scheme-routine entry
+    std::vector<size_t> entry_draws; // deviates served when each open scope was entered
     bool keep = true;
     void install() { bxdecay0::verif::current_tracer() = this; }
     static void uninstall() { bxdecay0::verif::current_tracer() = nullptr; }
@@ -40,10 +42,13 @@ namespace vh {
     {
       if (keep) evs.push_back({name_, 0, (int)stack.size(), nd(), std::vector<double>(args_, args_ + n_)});
       stack.push_back(name_);
+      entry_draws.push_back(nd());
+      if (scheme_counter && stack.back().compare(0, 7, "scheme:") == 0) (*scheme_counter)++;
     }
     void leave(const char * name_) override
     {
       if (!stack.empty()) stack.pop_back();
+      if (!entry_draws.empty()) entry_draws.pop_back();
       if (keep) evs.push_back({name_, 1, (int)stack.size(), nd(), {}});
     }
     void note(const char * name_, std::size_t n_, const double * args_) override
@@ -54,6 +59,13 @@ namespace vh {
     // true when the innermost open scope is a decay-scheme routine (draws made here are scheme-level draws)
     bool at_scheme_level() const { return !stack.empty() && stack.back().compare(0, 7, "scheme:") == 0; }
     bool at_level(const char * nm) const { return !stack.empty() && stack.back() == nm; }
+    // true when the next deviate is the first one of a nuclear-transition primitive called directly by a scheme routine
+    bool at_transition_choice() const
+    {
+      size_t n = stack.size();
+      return n >= 2 && stack[n - 1].compare(0, 9, "nucltrans") == 0 && stack[n - 2].compare(0, 7, "scheme:") == 0
+             && entry_draws.back() == nd();
+    }
   };
 
   // Deviate source: scheme-level draws are taken from `plan` in order (NaN entry or exhausted plan = free draw),
@@ -61,12 +73,16 @@ namespace vh {
   struct PlanSource : public bxdecay0::i_random
   {
     Recorder * rec = nullptr;
-    std::vector<double> plan;      // for scheme-level draws
+    std::vector<std::vector<double>> plans; // plans[i] = planned scheme-level draws of the i-th scheme routine entered
+    int scheme_index = -1;         // maintained by the Recorder
+    int last_index   = -1;
     std::vector<double> bbplan;    // for draws made directly inside decay0_bb
+    std::vector<double> tplan;     // outcome deviate of the i-th nuclear-transition primitive called by a scheme
+    size_t tpos = 0;
     size_t ppos = 0, bpos = 0;
     stream fallback;
     std::vector<double> log;       // every deviate served, in order
-    std::vector<char> level;       // 's' scheme-level, 'b' bb-level, 'i' inside a primitive / elsewhere
+    std::vector<char> level;       // 's' scheme-level, 't' transition outcome, 'b' bb-level, 'i' inside a primitive / elsewhere
     size_t ndraws = 0;
     long pin_pos = -1;
     double pin_val = 0.5;
@@ -80,6 +96,12 @@ namespace vh {
       bool planned = false;
       if (rec && rec->at_scheme_level()) {
         lv = 's';
+        if (scheme_index != last_index) {
+          last_index = scheme_index;
+          ppos       = 0;
+        }
+        static const std::vector<double> none;
+        const std::vector<double> & plan = (scheme_index >= 0 && (size_t)scheme_index < plans.size()) ? plans[scheme_index] : none;
         if (ppos < plan.size()) {
           double v = plan[ppos];
           if (v == v) {
@@ -88,6 +110,16 @@ namespace vh {
           }
         }
         ppos++;
+      } else if (rec && rec->at_transition_choice()) {
+        lv = 't';
+        if (tpos < tplan.size()) {
+          double v = tplan[tpos];
+          if (v == v) {
+            u       = v;
+            planned = true;
+          }
+        }
+        tpos++;
       } else if (rec && rec->at_level("bb")) {
         lv = 'b';
         if (bpos < bbplan.size()) {
